@@ -1,2 +1,43 @@
-Require Import Verif.Model.Base Verif.Model.Mode Verif.Corr.Enc.
-Definition ok (isprint : Z -> bool) (c : ecase) : bool := ok_mode ShLogfmt isprint c.
+(* Correspondence evaluator of C05.  On every record the implementation printed:
+   1. the encoder model gives the observed bytes exactly (Corr/Enc.v);
+   2. the record is inside the domain of the C05 theorems (Model/Logfmt.v lf_domain), or is a
+      blank Print; so the hypotheses of the theorems are met by every generated input;
+   3. the SPECIFICATION side is exercised on the observed line itself: the tokenizer returns
+      the printed forms of the expected fields, and tokenizer + decoder return the expected
+      fields (what C05_roundtrip states about the model's output). *)
+Require Import Verif.Model.Base Verif.Model.Mode Verif.Model.Attrs Verif.Model.Encode Verif.Model.Logfmt Verif.Corr.Enc.
+
+Fixpoint fval_eqb (a b : fval) {struct a} : bool :=
+  match a, b with
+  | FQuoted x, FQuoted y => bytes_eqb x y
+  | FBare x, FBare y => bytes_eqb x y
+  | FList l, FList m =>
+      (fix go (l : list fval) (m : list fval) {struct l} : bool :=
+         match l, m with
+         | [], [] => true
+         | x :: l', y :: m' => fval_eqb x y && go l' m'
+         | _, _ => false
+         end) l m
+  | _, _ => false
+  end.
+
+(* the line without its final line feed *)
+Definition strip_lf (s : bytes) : option bytes :=
+  match rev s with
+  | c :: t => if bz c =? 10 then Some (rev t) else None
+  | [] => None
+  end.
+
+Definition spec_ok (isprint : Z -> bool) (c : ecase) : bool :=
+  let cfg := cfg_of c in
+  let want := fields_of enc_registry cfg (k_msg c) (k_attrs c) in
+  match strip_lf (k_observed c) with
+  | None => false
+  | Some line =>
+      option_eqb (list_eqb (pair_eqb bytes_eqb bytes_eqb)) (lf_tokens line) (Some (map (printed isprint) want))
+      && option_eqb (list_eqb (pair_eqb bytes_eqb fval_eqb)) (lf_parse line) (Some want)
+  end.
+
+Definition ok (isprint : Z -> bool) (c : ecase) : bool :=
+  ok_mode ShLogfmt isprint c &&
+  (blank_print (cfg_of c) (k_msg c) || (lf_domain (cfg_of c) (k_msg c) (k_attrs c) && spec_ok isprint c)).
